@@ -24,6 +24,14 @@ Oracle : per plan, on the value returned by `generate`, the action trace and the
                was generated in this turn and has passed the complete output chain, no rail of which failed or rejected;
          (iii) every turn without a fault - in particular the one after a faulted turn - shows exactly the rail trace
                (rails, order, verdicts) and the reply of the same turn of the dry run.
+Cost   : Colang 2.x turns cost ~0.2 s, so a faulted v2 run does not re-execute the turns before its first planned fault: it
+         starts from the `state` document the dry run got back before that turn (see `_run`); v1 always re-runs everything.
+         A violation is confirmed on fresh LLMRails instances (whole conversation, no shortcut) before it is reported.
+Findings on the unchanged tree (classified by `known`, repros in replays/known/C03/): C03-F16 (v1: `hide_prev_turn` drops the
+         ContextUpdate of `$allowed`, later turns are refused although the check rail accepts), C03-F17 (v1 without knowledge
+         base: failed retrieval-rail action leaves `$relevant_chunks = None`, `retrieve_relevant_chunks` raises in every later
+         turn), C03-F18 (v2 `llm continuation` + rail exceptions: aborted `_bot_say` leaves `$bot_talking_state = True`, every
+         later utterance is ignored).
 Not asserted (DESIGN 4/C03 S): the reply of a turn whose dialog / retrieval action failed (v2 may answer normally or with
          nothing, v1 answers with the internal-error message); which later rails still run inside the faulted turn; v2
          fail-closed for rails that are not of the library convention `if not $allowed` (not generated).
@@ -39,7 +47,7 @@ from vf.fakes import GENERATION_TASKS, Session, block_message, refusal_text
 PID = "C03"
 LEVEL = "fault_enumeration"
 CASE_TIMEOUT = 420
-WALL = {"quick": 160, "thorough": 1500}
+WALL = {"quick": 150, "thorough": 1500}
 INTERNAL_ERROR = "I'm sorry, an internal error has occurred."  # v1 runtime.py:370, v2 runtime.py:270
 RULE = (
     "one case = configuration (v1 ~80% / v2 ~20% in the quick tier, 2:1 in the thorough tier; 1-3 ordered input rails and 1-2 ordered output rails from {check, rewrite(v1), "
@@ -59,6 +67,7 @@ ASSUMPTIONS = [
     "the shipped self check rails are part of the rail pool but are not fault sites: their only failure mode is the LLM call",
     "Colang 2.x rails are generated in the guardrails-library convention only (`$allowed = await A(...)` / `if not $allowed` / refuse / abort); a rail testing `if $flagged` fails open by construction and is out of scope",
     "the caller keeps the conversation like the server does: v1 passes previous user messages and returned replies back as `messages`, v2 the returned `state`",
+    "Colang 2.x: a faulted run starts from the state document the fault-free run returned before the turn of its first planned fault (the skipped turns are the same deterministic computation); confirmation runs and Colang 1.0 execute every turn",
     "a dry run in which the Colang 1.0 runtime raises `Too many events.` (safety limit of 100 events per turn) is counted as skipped",
     "the reply of a turn whose dialog or retrieval action failed is not prescribed (only that generate returns, that no unchecked LLM text is in it and that later turns are unaffected)",
 ]
